@@ -150,6 +150,12 @@ Binary(op, x, y) ==
        [] op = "mul" -> acc' = MulV(x, y) /\ ev' = Ev(op, x, y, 0, acc', FALSE, NoM)
        [] op = "div" -> y.t = "num" /\ x.t # "num" /\ y.ts[1].c \in Invertible /\ acc' = DivV(x, y) /\ ev' = Ev(op, x, y, 0, acc', FALSE, NoM)
        [] op = "eq"  -> x.t # "num" /\ y.t # "num" /\ acc' = acc /\ ev' = Ev(op, x, y, 0, acc, EqV(x, y), NoM)   \* equality is about operators, not plain numbers
+\* PauliTerm.circuit: one single-qubit gate per non-identity factor (their order is irrelevant: they act on different qubits)
+RECURSIVE CircuitFrom(_, _, _)
+CircuitFrom(ops, q, w) == IF q > w THEN MId(2^w)
+                          ELSE IF ops[q] = "I" THEN CircuitFrom(ops, q + 1, w)
+                          ELSE MMul(Lift(Sigma(ops[q]), <<q - 1>>, w), CircuitFrom(ops, q + 1, w))
+CircuitMech(ops, w) == CircuitFrom(ops, 1, w)
 Unary(op, x, k) ==
   CASE op = "pow" -> x.t # "num" /\ k \in 0..3 /\ acc' = PowV(x, k) /\ ev' = Ev(op, x, x, k, acc', FALSE, NoM)
     [] op = "simplify" -> x.t = "sum" /\ k = 0 /\ acc' = S(Simplify(x.ts)) /\ ev' = Ev(op, x, x, 0, acc', FALSE, NoM)
@@ -160,6 +166,8 @@ Unary(op, x, k) ==
                          /\ acc' = ReverseV(x, Width(x.ts) + k) /\ ev' = Ev(op, x, x, Width(x.ts) + k, acc', FALSE, NoM)
     [] op = "expect" -> x.t # "num" /\ k \in 1..5 /\ acc' = acc
                          /\ ev' = Ev(op, x, x, k, acc, FALSE, <<<<QuadForm(Denote(x.ts, NQ), StateK(k))>>>>)
+    [] op = "circuit" -> x.t = "term" /\ k = 0 /\ Width(x.ts) >= 1 /\ acc' = acc
+                         /\ ev' = Ev(op, x, x, Width(x.ts), acc, FALSE, CircuitMech(x.ts[1].ops, Width(x.ts)))
     [] op = "frommatrix" -> k \in 1..(4^NQ) /\ acc' = FromMatrix(MatUnit(((k - 1) \div 2^NQ) + 1, ((k - 1) % 2^NQ) + 1, NQ), NQ)
                          /\ ev' = Ev(op, x, x, k, acc', FALSE, NoM)
 BinOps == {"add", "sub", "mul", "div", "eq"}
@@ -202,6 +210,8 @@ ReverseIsBitReversal == ev.op = "reverse" =>
     /\ Denote(ev.res.ts, ev.k) = BitRevConj(Denote(ev.x.ts, ev.k), ev.k)
     /\ Denote(ReverseV(ev.res, ev.k).ts, ev.k) = Denote(ev.x.ts, ev.k)          \* twice = identity
 ExpectationIsQuadraticForm == ev.op = "expect" => ev.m[1][1] = QuadForm(SparseMech(ev.x.ts, NQ), StateK(ev.k))
+\* beyond the listed clauses: the circuit of a term acts as the term's Pauli string (coefficient aside) on the term's own width
+TermCircuitIsString == ev.op = "circuit" => ev.m = Denote(<<Tm(ev.x.ts[1].ops, COne)>>, ev.k)
 NoOverflow == \A i \in 1..Len(acc.ts) : CSmall(acc.ts[i].c)
 
 \* ---- pools ---------------------------------------------------------------------------------------------------
